@@ -153,4 +153,58 @@ theorem shape_root_only_last : ∀ (acc : List Comp), shapeN acc = true →
       · intro heq; subst heq; simp [shapeN] at h
       · exact ih (shapeN_tail a _ h) c hc
 
+/-! ### the two scanners agree; stem and extension recompose the file name -/
+
+theorem scan_fst : ∀ (cs : List Char) (first : Bool) (i : Nat) (cur : List Char),
+    (scan first i cur cs).map Prod.fst = partsComps first (splitSlash cs cur) := by
+  intro cs
+  induction cs with
+  | nil =>
+    intro first i cur
+    simp only [scan, emit, splitSlash, partsComps]
+    cases partComp first cur.reverse <;> simp
+  | cons c rest ih =>
+    intro first i cur
+    simp only [scan, splitSlash]
+    split
+    · simp only [List.map_append, ih, emit, partsComps]
+      cases partComp first cur.reverse <;> simp
+    · exact ih first (i + 1) (c :: cur)
+
+theorem componentsPos_fst (p : List Char) : (componentsPos p).map Prod.fst = components p := by
+  unfold componentsPos components
+  split
+  · simp [scan_fst]
+  · exact scan_fst p true 0 []
+
+theorem mem_takeWhile_ne (l : List Char) : '.' ∉ l.takeWhile (· ≠ '.') := by
+  induction l with
+  | nil => simp
+  | cons x xs ih =>
+    by_cases hx : x = '.'
+    · simp [List.takeWhile, hx]
+    · simp only [List.takeWhile, ne_eq, hx, not_false_eq_true, decide_true, List.mem_cons, not_or]
+      exact ⟨fun h => hx h.symm, ih⟩
+
+theorem splitLastDot_spec (f before after : List Char) (h : splitLastDot f = some (before, after)) :
+    f = before ++ '.' :: after ∧ '.' ∉ after := by
+  unfold splitLastDot at h
+  split at h
+  · cases h
+  · rename_i c beforeRev hd
+    simp only [Option.some.injEq, Prod.mk.injEq] at h
+    obtain ⟨rfl, rfl⟩ := h
+    have hc : c = '.' := by
+      have := List.head?_dropWhile_not (· ≠ '.') f.reverse
+      rw [hd] at this
+      simpa using this
+    subst hc
+    constructor
+    · have h1 : f.reverse = f.reverse.takeWhile (· ≠ '.') ++ f.reverse.dropWhile (· ≠ '.') :=
+        List.takeWhile_append_dropWhile.symm
+      rw [hd] at h1
+      have := congrArg List.reverse h1
+      simpa using this
+    · intro hm; exact mem_takeWhile_ne f.reverse (List.mem_reverse.mp hm)
+
 end Just.Path
